@@ -754,3 +754,70 @@ def _variant_implied_edges(b, cfg, edges):
         if not added:
             break
     return edges
+
+
+# ---------------------------------------------------------------------------------------------------------------------
+# ROW-BY-FIELD-INDEX (C06, C05): the exhaustiveness analysis works on rows with one column per field of the matched struct, in
+# declaration order. An object pattern `{ b as p, a }` mentions fields by name in any order and may leave some out, so the
+# checker pre-sizes the row with one wildcard per field and stores each element's abstract pattern *at the index of its field*.
+# Appending instead (in the order of mention) puts patterns under the wrong fields - a non-exhaustive match is accepted, or an
+# unknown field adds a column and the matrix algorithm panics on the ragged row. Rule: in the checker function that types a
+# pattern, the row that receives indexed stores keyed by `field_order` exists, and nothing is pushed onto it inside the loop
+# over the pattern elements.
+
+def run_row_by_field_index(prog, tier, repo):
+    from ..facts import strip_refs
+    from .delegate import origin
+    res = RuleResult('ROW-BY-FIELD-INDEX', 'C06: the abstract pattern of each object-pattern element is stored in the row at the index of '
+                     'its field, never appended in the order of mention')
+    bs = [b for b in prog.bodies.values() if b.name.startswith('samlang_checker::main_checker::') and b.kind != 'closure'
+          and 'AbstractPatternNode' in b.locals[0].s and 'MatchingPattern' in b.locals[0].s
+          and any('MatchingPattern' in strip_refs(b.locals[i]).s for i in range(1, b.nargs + 1))]
+    if len(bs) != 1:
+        res.cannot_decide(f'the checker function that types a pattern and returns its abstract pattern (found {len(bs)})')
+        return [res]
+    b = bs[0]
+    cfg = cfg_of(b)
+
+    def is_row(l):
+        t = strip_refs(b.locals[l])
+        return t.k == 'adt' and t.name.startswith('std::vec::Vec') and 'AbstractPatternNode' in t.s
+    stores = []     # (block, row local)
+    pushes = []
+    for bi, bl in enumerate(b.blocks):
+        t = bl.term
+        if bl.cleanup or t[0] != 'call' or not t[3] or t[3][0][0] not in ('c', 'm'):
+            continue
+        short = (callee(t)[1] or '').split('::')[-1]
+        r, _ = origin(b, t[3][0][1].local)
+        if r is None or not is_row(r):
+            continue
+        if short == 'index_mut' and len(t[3]) >= 2 and t[3][1][0] in ('c', 'm'):
+            _ri, pi = origin(b, t[3][1][1].local)
+            if any(e[0] == 'f' and e[4] == 'field_order' for e in pi):
+                stores.append((bi, r))
+        elif short in ('push', 'insert', 'extend', 'append'):
+            pushes.append((bi, r, t[7]))
+    key = f'row:{b.name}'
+    if not stores:
+        res.violation(key, b.loc(), f'{b.name} never stores an abstract pattern at the index given by an element\'s `field_order`: the '
+                      f'row of an object pattern follows the order of mention instead of the declaration order of the fields, so the '
+                      f'exhaustiveness analysis reads each sub-pattern under the wrong field')
+        return [res]
+    rows = {r for _, r in stores}
+    bad = []
+    for sb, r in stores:
+        loop = {x for x in cfg.reachable(sb) if sb in cfg.reachable(x)}
+        for pb, pr, line in pushes:
+            if pr == r and pb in loop:
+                bad.append(line)
+    if bad:
+        res.violation(key, b.loc(bad[0]), f'{b.name} appends to the row of an object pattern inside the loop over the pattern\'s elements: '
+                      f'the row then has more columns than the struct has fields (or a sub-pattern under the wrong field), and the '
+                      f'matrix algorithm of the exhaustiveness analysis assumes rows of equal width')
+    else:
+        res.ok(key, b.loc(stores[0][0] and b.line), f'{len(stores)} indexed store(s) keyed by field_order; the row is only appended to '
+               f'while it is pre-sized')
+    res.analysed['indexed_stores'] = len(stores)
+    res.analysed['rows'] = len(rows)
+    return [res]
